@@ -121,6 +121,18 @@ JS_BIN_OP: Dict[str,str] = {
 
 
 
+def js_receiver(code) -> str:
+    """
+    Javascript code of the receiver of a '.name' / '[index]' access: it has to
+    be a primary expression, so a numeric literal ('1.concat(b)' does not
+    parse) or a prefix operation ('-(a).concat(b)' groups as '-(a.concat(b))')
+    is parenthesised.
+    """
+    code = str(code)
+    if code[:1] in ('-', '!') or code[:1].isdigit():
+        return '(' + code + ')'
+    return code
+
 #
 # Binary Operation names enumeration.
 # 
@@ -259,7 +271,8 @@ class BinaryOperation(Node):
                             r.generate_js(indentation, factory_method))
         elif op.startswith('.'):
             return vsprintf("%s%s(%s)",
-                            l.generate_js(indentation, factory_method), op,
+                            js_receiver(l.generate_js(indentation,
+                                                      factory_method)), op,
                             r.generate_js(indentation, factory_method))
         else:  
             return vsprintf("(%s %s %s)",
@@ -328,12 +341,12 @@ class StringOperation(Node):
     def generate_js(self, indentation: int, factory_method: bool) -> str:
         if self.end is None:
             return vsprintf('%s.%s[%s]',
-                cast(Node, self.of).generate_js(0, factory_method),
+                js_receiver(cast(Node, self.of).generate_js(0, factory_method)),
                 self.name,
                 cast(Node, self.start).generate_js(0, factory_method))
             
         return vsprintf('%s.%s[range(%s, %s)]',
-            cast(Node, self.of).generate_js(0, factory_method),
+            js_receiver(cast(Node, self.of).generate_js(0, factory_method)),
             self.name,
             cast(Node, self.start).generate_js(0, factory_method),
             cast(Node, self.end).generate_js(0, factory_method))
@@ -370,11 +383,13 @@ class UnaryStringOperation(Node):
             op_type = cast(StringOperationNames, self.type).value
             if self.name == UnaryOperationNames.LAST.value:
                 return vsprintf("%s.%s[\"%s\"]",
-                            operand.generate_js(indentation, factory_method),
+                            js_receiver(operand.generate_js(indentation,
+                                                            factory_method)),
                             op_type, operation)
             else:
                 return vsprintf("%s.%s.%s",
-                               operand.generate_js(indentation, factory_method),
+                               js_receiver(operand.generate_js(indentation,
+                                                               factory_method)),
                                op_type,
                                operation)
         
@@ -410,9 +425,7 @@ class PropertyAccessorOperation(Node):
         if obj_str == 'tell_obj':
             return vsprintf('%s', self.prop)
         else:
-            return vsprintf("%s.%s",
-                            self.obj.generate_js(indentation, factory_method),
-                            self.prop)
+            return vsprintf("%s.%s", js_receiver(obj_str), self.prop)
 
 #
 # Key property accessor operation class.
